@@ -9,6 +9,7 @@ templates really do shows up as a trace disagreement (unknown types are logged w
 """
 from __future__ import annotations
 from dataclasses import dataclass, field
+import re as _re
 from typing import Any, Dict, List, Optional, Tuple
 
 # ---------------------------------------------------------------- type expressions
@@ -48,6 +49,10 @@ def FAM(f):
     return ('f', int(f))
 
 
+def RACT(rid, is_bool=False, veto=0, thr=0, std=False):
+    return ('r', (int(rid), bool(is_bool), int(veto), int(thr), bool(std)))
+
+
 def CTL(k):
     return ('k', int(k))
 
@@ -72,6 +77,11 @@ def spell_arg(a, nsname) -> str:
         return v
     if k == 'f':            # action family (class template act<v> of the grammar's namespace)
         return f"{nsname}::act{v}"
+    if k == 'r':            # rule-level action class named by apply< … > / if_apply< R, … >: (id, isBool, vetoMod, throwMod, throwStd)
+        rid, is_bool, veto, thr, std = v
+        if is_bool:
+            return f"vh::ract_bool< {nsname}::tag, {rid}, {veto}, {thr}, {'true' if std else 'false'} >"
+        return f"vh::ract_void< {nsname}::tag, {rid}, {thr}, {'true' if std else 'false'} >"
     if k == 'k':            # control family (class template ctl<v> of the grammar's namespace)
         return f"{nsname}::ctl{v}"
     if k == 's':            # state type: 1 = default-constructed only, 0 = constructed from ( in, outer... )
@@ -177,6 +187,12 @@ def public_base(t: T):
         return I('pad', *a)
     if n == 'raise':
         return I('raise', *a)
+    if n in ('if_apply', 'apply'):
+        return I(n, *a)
+    if n == 'raise_message':         # struct raise_message< Cs... > : internal::raise< raise_message< Cs... > > { error_message = Cs... }
+        return I('raise', P('raise_message', *a))
+    if n == 'forty_two':
+        return I('rep', N(42), I('one', SUCCESS_RES, PEEK_CHAR, *a))
     if n == 'try_catch_return_false':
         return I('try_catch_return_false', X('tao::pegtl::parse_error_base'), *a)
     if n == 'try_catch_raise_nested':
@@ -476,6 +492,12 @@ def body_of_internal(t: T):
         if len(ty) > 1:
             return body_of_internal(I('control', a[0], I('seq', *ty)))
         return ('control', [a[0], ty[0]])
+    if n == 'if_apply':
+        acts = [x[1] for x in a if not is_type(x) and x[0] == 'r']
+        return ('ifApply', [ty[0], acts])
+    if n == 'apply':
+        acts = [x[1] for x in a if not is_type(x) and x[0] == 'r']
+        return ('applyR', [acts])
     if n == 'state':
         if not ty:
             return ('atom', ['success'])
@@ -588,6 +610,9 @@ class Grammar:
         sel = getattr(self, 'sel', None)
         if sel is not None:
             lines.append("SEL " + " ".join(f"{nid} {k}" for nid, k in sorted(sel.items())))
+        mi = getattr(self, 'mi_msgs', None)
+        if mi:
+            lines.append("MI " + " ".join(str(nid) for nid in sorted(mi)))
         for nid in sorted(self.nodes):
             nd = self.nodes[nid]
             act = self.acts.get(nid, ActSpec())
@@ -643,6 +668,10 @@ class Grammar:
         if k == 'action':
             fam = p[0]
             return f"action {fam[1] if isinstance(fam, tuple) else fam} {p[1]}"
+        if k == 'ifApply':
+            return f"ifApply {p[0]} {len(p[1])} " + " ".join(f"{r[0]} {int(r[1])} {r[2]} {r[3]} {int(r[4])}" for r in p[1])
+        if k == 'applyR':
+            return f"applyR {len(p[0])} " + " ".join(f"{r[0]} {int(r[1])} {r[2]} {r[3]} {int(r[4])}" for r in p[0])
         if k == 'control':
             return f"control {p[0][1]} {p[1]}"
         if k == 'state':
@@ -670,6 +699,10 @@ class Grammar:
             out = [nd.params[1]]
         elif nd.kind in ('action', 'state', 'control'):
             out = [nd.params[1]]
+        elif nd.kind == 'ifApply':
+            out = [nd.params[0]]
+        elif nd.kind == 'applyR':
+            out = []
         return out
 
     def cpp_decls(self) -> str:
@@ -743,13 +776,27 @@ class Grammar:
             o.append("struct errs { template< typename > static constexpr const char* message = nullptr; };")
             for nid, msg in sorted(mi.items()):
                 o.append(f'template<> inline constexpr const char* errs::message< {self.nodes[nid].cpp} > = "{msg}";')
-            o.append("template< typename R > struct ctl_mi : tao::pegtl::must_if< errs, ctl, false >::template control< R > {};")
+            # the must_if control; its failure hook raises for rules that have a message (without calling ctl< R >::failure
+            # or ctl< R >::raise), so the entry into the hook and the raise are logged here
+            o.append("template< typename R > struct ctl_mi : tao::pegtl::must_if< errs, ctl, false >::template control< R > {")
+            o.append("  using mi_base = typename tao::pegtl::must_if< errs, ctl, false >::template control< R >;")
+            o.append("  template< typename In, typename... St > static void failure( const In& in, St&&... st ) {")
+            o.append("    if constexpr( tao::pegtl::internal::raise_on_failure< errs, R > ) { vh::ev_m< 0 >( \"fa\", vh::vid< tag, R >, in ); vh::ev_m< 0 >( \"ra\", vh::vid< tag, R >, in ); }")
+            o.append("    mi_base::failure( in, st... ); }")
+            o.append("  template< typename In, typename... St > [[noreturn]] static void raise( const In& in, St&&... st ) {")
+            o.append("    if constexpr( errs::template message< R > != nullptr ) { vh::ev_m< 0 >( \"ra\", vh::vid< tag, R >, in ); }")
+            o.append("    mi_base::raise( in, st... ); }")
+            o.append("};")
         o.append("inline void reg() {")
         if mi is not None:
             for nid, msg in sorted(mi.items()):
-                o.append(f'  vh::messages()[ "{msg}" ] = {nid};')
+                o.append(f'  vh::messages_for< tag >()[ "{msg}" ] = {nid};')
         for rid, msg in sorted(self.messages.items()):
-            o.append(f'  vh::messages()[ "{msg}" ] = {rid};')
+            o.append(f'  vh::messages_for< tag >()[ "{msg}" ] = {rid};')
+        for nid, nd in sorted(self.nodes.items()):
+            if nd.cpp.startswith('tao::pegtl::raise_message<'):
+                msg = ''.join(chr(int(x)) for x in _re.findall(r'char\((\d+)\)', nd.cpp))
+                o.append(f'  vh::messages_for< tag >()[ "{msg}" ] = {nid};')
         for nid in sorted(self.nodes):
             o.append(f"  vh::reg< tag, {self.nodes[nid].cpp} >( {nid} );")
         for cpp, (lid, msg) in sorted(limit_ids.items()):
@@ -777,7 +824,8 @@ def type_from_json(d):
     if 'ref' in d:
         return Ref(d['ref'])
     if 'lit' in d:
-        return (d['lit'][0], d['lit'][1])
+        v = d['lit'][1]
+        return (d['lit'][0], tuple(v) if isinstance(v, list) else v)
     return T(d['ns'], d['name'], tuple(type_from_json(a) for a in d['args']))
 
 
@@ -786,6 +834,7 @@ def grammar_to_json(g: Grammar):
             'acts': {str(k): vars(v) for k, v in g.acts.items()},
             'fams': {str(f): {str(k): vars(v) for k, v in m.items()} for f, m in g.fams.items()},
             'messages': {str(k): v for k, v in g.messages.items()},
+            'mi_msgs': ({str(k): v for k, v in g.mi_msgs.items()} if getattr(g, 'mi_msgs', None) is not None else None),
             'sel': ({str(k): v for k, v in g.sel.items()} if getattr(g, 'sel', None) is not None else None)}
 
 
@@ -802,4 +851,6 @@ def grammar_from_json(d) -> Grammar:
     g.messages = {int(k): v for k, v in d.get('messages', {}).items()}
     if d.get('sel') is not None:
         g.sel = {int(k): v for k, v in d['sel'].items()}
+    if d.get('mi_msgs') is not None:
+        g.mi_msgs = {int(k): v for k, v in d['mi_msgs'].items()}
     return g
